@@ -6,6 +6,7 @@ import DimodProofs.C03Fix
 import DimodProofs.C03CopyCqm
 import DimodProofs.C03Multi
 import DimodProofs.C03Mixin
+import DimodProofs.C03PyFix
 
 /-! # C03 — fixing a variable equals substituting its value everywhere
 
@@ -275,5 +276,40 @@ theorem cqm_fix_all_vars [DecidableEq R] (m : CqmL R) (hm : m.c.WF) (hnd : m.lab
     exact this.2 (hcover l this.1)
   rw [hnil] at a7
   exact ⟨hnil, a7⟩
+
+/-! ## the dict back-end (`dtype=object`) at any point of an edit history
+
+`LBqm` (`DimodModel/Convert.lean`, `PyHist.lean`): `_adj` as insertion-ordered dict of dicts.  `LBqm.fixVariable` is
+`QuadraticViewsMixin.fix_variable` as it runs on a `pyBQM` (`iter_neighborhood`, `add_linear`, `get_linear`, offset setter,
+`remove_variable`, each as coded).  `repEval` is the polynomial of the reported coefficients (`offset`, `linear`,
+`iter_quadratic`). -/
+
+/-- **`remove_variable(v)`** on any state satisfying the representation invariant removes exactly the terms that mention `v` -/
+theorem pybqm_remove_variable_eval (m : LBqm Rat) (g : LBqm.GInv m) (v : Label) (nv : ODict Label Rat)
+    (hv : ODict.get? m.adj v = some nv) :
+    ∃ m', m.removeVariable v = .ok m' ∧ LBqm.GInv m' ∧ m'.vt = m.vt ∧
+      ∀ x, LBqm.evalL (1/2) m' x
+        = LBqm.evalL (1/2) m x - (LBqm.lbias v nv * x v + ((LBqm.others v nv).map fun p => p.2 * (x v * x p.1)).sum) :=
+  LBqm.removeVariable_evalL g v nv hv
+
+/-- **`fix_variable(v, a)` on the dict back-end, any invariant state**: succeeds for a variable of the model, `v` is gone, the
+    invariant and the vartype are kept, and at every assignment giving `v` the value `a` (in the domain or not) the energy
+    computed from the reported coefficients of the fixed model equals that of the original -/
+theorem pybqm_fix_eval (m : LBqm Rat) (g : LBqm.GInv m) (v : Label) (hv : v ∈ okeys m.adj) (a : Rat) :
+    ∃ m', m.fixVariable v a = .ok m' ∧ LBqm.GInv m' ∧ m'.vt = m.vt ∧ v ∉ okeys m'.adj ∧
+      ∀ x, x v = a → LBqm.repEval m' x = LBqm.repEval m x := by
+  obtain ⟨m', h1, h2, h3, h4, h5⟩ := LBqm.fixVariable_evalL g v hv a
+  refine ⟨m', h1, h2, h3, h4, fun x hx => ?_⟩
+  rw [← LBqm.evalL_eq_repEval m' h2.toLInv, ← LBqm.evalL_eq_repEval m g.toLInv]
+  exact h5 x hx
+
+/-- **… at any point of an edit history**: after any history of calls through the model and its `.spin` / `.binary` views
+    (incl. relabelling and in-place vartype changes), fixing a variable of the model equals substituting its value -/
+theorem pybqm_fix_after_history (vt : En.VT) (calls : List (En.VT × LBqm.VOp Rat)) (v : Label)
+    (hv : v ∈ okeys (LBqm.vrun vt calls).adj) (a : Rat) :
+    ∃ m', (LBqm.vrun vt calls).fixVariable v a = .ok m' ∧ v ∉ okeys m'.adj ∧
+      ∀ x, x v = a → LBqm.repEval m' x = LBqm.repEval (LBqm.vrun vt calls) x := by
+  obtain ⟨m', h1, _, _, h4, h5⟩ := pybqm_fix_eval _ (LBqm.GInv.vrun vt calls) v hv a
+  exact ⟨m', h1, h4, h5⟩
 
 end C03
